@@ -34,6 +34,7 @@ type Result struct {
 	RT      string // "1", "0", "err:..."
 	Strict  bool
 	JSONRT  string
+	JSONTree string        // canonical text of MarshalJSON(binary normal form of v), "-" or "err:..."
 	RTDiff  string         // path of the first difference when RT == "0"
 	JSONDif string         // same for JSONRT == "0"
 	SelfErr string         // non-empty if the text self-check failed
@@ -46,7 +47,11 @@ func (r Result) Line() string {
 	if r.Strict {
 		strict = "1"
 	}
-	return fmt.Sprintf("pb %s %s => %s rt=%s strict=%s json_rt=%s", r.Name, r.Text, r.Wire, r.RT, strict, r.JSONRT)
+	tree := r.JSONTree
+	if tree == "" {
+		tree = "-"
+	}
+	return fmt.Sprintf("pb %s %s => %s rt=%s strict=%s json_rt=%s json=%s", r.Name, r.Text, r.Wire, r.RT, strict, r.JSONRT, tree)
 }
 
 func clean(s string, max int) string {
@@ -76,7 +81,7 @@ func guard(f func() error) (err error, panicked bool) {
 
 // ProbeOne marshals v with the real codec and computes the verdicts.
 func ProbeOne(cdc codec.Codec, e TypeEntry, v Msg, omit bool) Result {
-	res := Result{Name: e.Name, Text: Text(v, omit)}
+	res := Result{Name: e.Name, Text: Text(v, omit), JSONTree: "-"}
 	// Marshal may mutate its argument (nil Int -> 0), so every comparison is
 	// made against a pristine copy, and JSON gets its own copy.
 	orig, vj := cloneMsg(v), cloneMsg(v)
@@ -92,6 +97,7 @@ func ProbeOne(cdc codec.Codec, e TypeEntry, v Msg, omit bool) Result {
 
 	// --- binary ---
 	var bz []byte
+	var normal Msg // the value as read back from its bytes (binary normal form), if that worked
 	err, pan := guard(func() (err error) { bz, err = cdc.Marshal(v); return })
 	switch {
 	case pan:
@@ -119,6 +125,7 @@ func ProbeOne(cdc codec.Codec, e TypeEntry, v Msg, omit bool) Result {
 		case err != nil:
 			res.RT = "err:" + clean(err.Error(), 120)
 		default:
+			normal = fresh
 			var df differ
 			res.Mutated = !reflect.DeepEqual(orig, v)
 			if d := df.diff(reflect.ValueOf(orig), reflect.ValueOf(fresh), ""); d != "" {
@@ -158,6 +165,25 @@ func ProbeOne(cdc codec.Codec, e TypeEntry, v Msg, omit bool) Result {
 				res.JSONDif = d
 			} else {
 				res.JSONRT = "1"
+			}
+		}
+	}
+
+	// --- JSON tree of the binary normal form (nil Dec -> 0, empty bytes -> nil ...): the value the model's
+	// `Val` denotes; compared member by member with the model's tree ---
+	if normal != nil && res.RT == "1" {
+		var jn []byte
+		err, pan = guard(func() (err error) { jn, err = cdc.MarshalJSON(normal); return })
+		switch {
+		case pan:
+			res.JSONTree = clean("err:panic:"+err.Error(), 80)
+		case err != nil:
+			res.JSONTree = clean("err:"+err.Error(), 80)
+		default:
+			if t, err := CanonicalJSON(jn); err != nil {
+				res.JSONTree = clean("err:canonical:"+err.Error(), 80)
+			} else {
+				res.JSONTree = t
 			}
 		}
 	}
@@ -209,6 +235,7 @@ func Run(cfg Config) error {
 	cdc := enc.Codec
 
 	all, problems := Types(enc.InterfaceRegistry, cfg.Log)
+	SetAnyPackable(AnyTypes(enc.InterfaceRegistry))
 	var types []TypeEntry
 	for _, e := range all {
 		if (cfg.Filter == "" || strings.Contains(e.Name, cfg.Filter)) && (!cfg.Core || e.Core) {
@@ -257,6 +284,12 @@ func Run(cfg Config) error {
 
 	out := bufio.NewWriterSize(cfg.Out, 1<<20)
 	defer out.Flush()
+
+	// header: the sentinel.* messages the interface registry resolves (what an Any may hold); the model
+	// answers "ok" when its own list is the same
+	if _, err := out.WriteString("anytypes " + strings.Join(AnyTypes(enc.InterfaceRegistry), " ") + "\n"); err != nil {
+		return err
+	}
 
 	for k := 0; k < cfg.N; k++ {
 		ti := k % len(types)
